@@ -12,7 +12,7 @@ class Prop(PropBase):
     LEAN_MODULES = ["Tpp.Props.C13"]
     REQUIRED = ["Tpp.Props.C13." + n for n in ("C13_element", "C13_string_run", "C13_move", "C13_visibility", "C13_after_erase")] + \
                ["Tpp.agree_run"]
-    RULE = ("exhaustive: every attribute of a 24-effect x 3 x 3 colour alphabet and every character set written twice in a "
+    RULE = ("exhaustive short histories: EVERY sequence of up to 3 (thorough: 4) operations over an 18-operation alphabet on a 3x2 terminal (termgen.short_histories); exhaustive: every attribute of a 24-effect x 3 x 3 colour alphabet and every character set written twice in a "
             "row (and once more after an erase when default); every position of a 4x3 grid moved to twice; every visibility "
             "request repeated; random histories in which 40% of the operations repeat their predecessor. The oracle "
             "decides 'already in effect' from Ref.VT's actual rendition/charset/cursor/visibility and demands payload-only "
@@ -50,4 +50,7 @@ class Prop(PropBase):
             nops = rng.choice([2, 3, 5, 8, 13, 21, 34, 60]) if tier == "quick" else rng.choice([3, 8, 21, 60, 150, 400])
             line = tg.history(rng, nops, sized=True, ops_weights=DUP_WEIGHTS)
             cs.append(Case(line, tag="history", cfgs=tg.configs(rng, 2)))
+        shc = ["%d %d %d %d 7 4" % (wv, e, r, z) for wv in range(3) for e in range(3) for r in range(6) for z in range(4)]
+        for line, cf in tg.short_histories(3 if tier == "quick" else 4, shc):
+            cs.append(Case(line, sweep="short-histories", cfgs=cf))
         return cs
